@@ -14,7 +14,12 @@
       [c]; a loop whose repetitions each dereference an element of [c]
       *drains* it (the two loops are assumed to range over the same
       elements);
-    - exceptions: a path that ends in [ERaise] is outside the property. *)
+    - exceptions: in the basic discipline ([balanced]) a path that ends in
+      [ERaise] is accepted whatever it holds; the strict discipline
+      ([balanced_strict]) asks of a raising path what it asks of a returning
+      one: nothing taken by the function is still held at the [raise].
+      Exceptions raised implicitly by a callee are not paths of the
+      skeleton (the scanner sees explicit [raise] statements only). *)
 From stdpp Require Export base list strings option.
 From Coq Require Import Ascii.
 Local Open Scope string_scope.
@@ -113,7 +118,7 @@ Fixpoint loop_effect (fx : list effect) (acc : effect) : effect :=
   end.
 
 Section run.
-  Context (kind : fkind) (params : list string).
+  Context (strict : bool) (kind : fkind) (params : list string).
 
   Definition at_exit (held : list string) : outcome := ODone (emptyb (strip held)).
   Definition released (x : string) (held : list string) : bool := bool_decide (rel x ∈ held).
@@ -168,7 +173,7 @@ Section run.
         (* a bare node may only travel between C-level functions *)
         if released x held then ODone false else
         if bool_decide (kind = KCdef) then at_exit held else ODone false
-    | ERaise => ODone true
+    | ERaise => if strict then at_exit held else ODone true
     | EInit _ x => if released x held then ODone false else OCont held
     | ESetNode _ | EClearNode | ENotLive | ENew _ | EReturnHandle _ => OCont held
     end.
@@ -230,16 +235,35 @@ Definition api_path_ok (up : bool) (params : list string) (p : list ev) : bool :
            (refs p ++ derefs p)).
 
 (** THE discipline of one path of one function *)
-Definition balanced_in (m : method) (p : list ev) : bool :=
+Definition balanced_gen (strict : bool) (m : method) (p : list ev) : bool :=
   match m_api m with
-  | Some up => api_path_ok up (m_params m) p
+  | Some up =>
+      api_path_ok up (m_params m) p &&
+      (* strict: a forwarder that raises has changed no count *)
+      (negb strict || negb (ends_in_raise p) || emptyb (refs p ++ derefs p))
   | None =>
       bool_decide (NoDup (wraps p)) &&
-      match run (m_kind m) (m_params m) p [] with
+      match run strict (m_kind m) (m_params m) p [] with
       | OCont h => emptyb (strip h)   (* fell off the end: `return None` *)
       | ODone ok => ok
       end
   end.
+Definition balanced_in (m : method) (p : list ev) : bool := balanced_gen false m p.
+(** the same discipline with raising paths included *)
+Definition balanced_strict (m : method) (p : list ev) : bool := balanced_gen true m p.
+(** number of paths of [m] that the strict discipline rejects *)
+Definition strict_failures (m : method) : nat :=
+  length (List.filter (fun p => negb (balanced_strict m p)) (m_paths m)).
+(** [raise_paths_ok allowed ms]: every function of [ms] meets the strict
+    discipline on all its paths, except that a function named in [allowed]
+    may have up to the stated number of raising paths that still hold
+    something (internal assertion failures and NULL results of the library:
+    listed by name in the theorem statements) *)
+Definition raise_paths_ok (allowed : list (string * nat)) (ms : list method) : bool :=
+  forallb (fun m =>
+    let n := strict_failures m in
+    bool_decide (n = 0) ||
+    existsb (fun a => bool_decide (fst a = m_name m) && bool_decide (n ≤ snd a)) allowed) ms.
 
 Definition paths (m : method) : list (list ev) := m_paths m.
 Definition balanced (m : method) (p : list ev) : bool := balanced_in m p.
